@@ -113,7 +113,8 @@ class RaggedHistory(Engine):
             return {'op': 'getbad', 'what': rng.choice(['float', 'str', 'slice', 'none', 'list', 'npfloat'])}
         if k == 'iter':
             return {'op': 'iter', 's': rng.randint(0, 6), 'e': rng.choice([None, None, 0, 1, 2, 3, 5, 8]),
-                    'st': rng.choice([1, 1, 2, 3])}
+                    'st': rng.choice([1, 1, 2, 3]), 'general': rng.random() < 0.4,
+                    'gs': rng.randint(-8, 8), 'ge': rng.randint(-9, 9), 'gst': rng.choice([-3, -2, -1, -1, 1, 2])}
         if k == 'mode':
             return {'op': 'mode', 'to': rng.choice(['r', 'r+', 'r+'])}
         if k == 'reopen':
@@ -629,6 +630,18 @@ class _RState:
         s = op['s'] % (n + 1)
         e = None if op['e'] is None else min(op['e'], n)
         stp = op['st']
+        if op.get('general') and n:
+            # any start/end/step (negative steps and negative indices too) whose indices all exist
+            gs, ge, gst = op['gs'], op['ge'], op['gst']
+            gs = max(-n, min(n - 1, gs))
+            rng_ = range(gs, ge, gst)
+            while len(rng_) and not all(-n <= i < n for i in rng_):
+                ge = ge - 1 if gst > 0 else ge + 1
+                rng_ = range(gs, ge, gst)
+            s, e, stp = gs, ge, gst
+            self.probe('iter_arrays_general_range')
+            if gst < 0:
+                self.probe('iter_arrays_negative_step')
         exp = [self.L[i] for i in range(s, n if e is None else e, stp)]
         try:
             got = list(self.h.iter_arrays(startindex=s, endindex=e, stepsize=stp))
